@@ -409,11 +409,28 @@ def r9(ctx):
         if not rec:
             ctx.fail(rule, m + "#anchor-lost:recursion", "%s no longer continues the lookup in the exporting module" % m, "%s:%d" % (b.file, b.line))
             continue
+        def through_map(e, body, depth=0):
+            """`opt.map(|m| ResolveScope { model: m, scope: self.scope })?`: the value is what the closure returns"""
+            while e[0] in ("ref", "deref", "mut", "try"):
+                e = e[1]
+            if depth < 3 and e[0] == "call" and X.last_seg(e[1] or "") in ("map", "and_then") and len(e[3]) == 2 \
+                    and e[3][1][0] == "agg" and e[3][1][1] == "closure":
+                cb = P.bodies.get("%s::%s" % (b.crate, e[3][1][2]))
+                if cb is not None:
+                    Oc = X.Origins(cb, P)
+                    rets = [Oc.rvalue(d[3], d[0], d[1], 0) for d in cb.defs.get(0, ()) if d[2] == "assign"]
+                    if len(rets) == 1:
+                        return through_map(R.in_root_terms(P, cb, rets[0]), cb, depth + 1)
+            return e
         for cs, a0 in rec:
             n += 1
-            e = a0
+            e = through_map(a0, b)
             while e[0] in ("ref", "deref", "mut"):
                 e = e[1]
+            if e[0] == "agg" and e[1] == "adt" and e[2].endswith("option::Option") and e[3] == "Some" and e[4]:
+                e = e[4][0][1]
+                while e[0] in ("ref", "deref", "mut"):
+                    e = e[1]
             scope = None
             if e[0] == "agg" and e[1] == "adt" and e[2].endswith("ResolveScope"):
                 for nm, x in e[4]:
